@@ -5,7 +5,7 @@ SEEDS=${1:-"1 2 3"}; TIER=${2:-quick}; shift; shift
 CHECKS=${@:-$(python3 -c "import json;print(' '.join(c['property_id'] for c in json.load(open('MANIFEST.json'))['checks']))")}
 for s in $SEEDS; do for c in $CHECKS; do
   start=$(date +%s)
-  out=$(VERIF_SEED=$s VERIF_EVIDENCE_SUFFIX=.soak ./run $c $TIER 2>&1); rc=$?
+  out=$(VERIF_SEED=$s VERIF_REPLAY_OUT=/tmp/soak-replays VERIF_EVIDENCE_SUFFIX=.soak ./run $c $TIER 2>&1); rc=$?
   echo "seed=$s check=$c rc=$rc secs=$(( $(date +%s)-start )) $(echo "$out" | grep -c VIOLATION) violations"
   if [ $rc -ne 0 ]; then echo "$out" | grep -v "rapid\] draw" | tail -15; fi
 done; done
